@@ -27,7 +27,8 @@ THEOREMS = ['C01_flag_den', 'C01_expand_surfs_den', 'C01_expand_surfs_errors',
             'C01_to_t4_cell_sound', 'C01_convert_cellref', 'C01_cells',
             'C01_remove_empty_sound', 'C01_prune_sound', 'C01_partition',
             'C01_partition_points', 'C01_print_read', 'C01_partition_file',
-            'C01_partition_file_points', 'C01_partition_file_points_linked']
+            'C01_partition_file_points', 'C01_partition_file_points_linked',
+            'C01_cells_linked', 'C01_partition_linked']
 TRUSTED = [
     'hand-written model coq/C01/Model.v (modelled, tied by execution only)',
     'surfaces are abstract ids: what a T4 surface id means geometrically, and '
